@@ -109,6 +109,31 @@ def check_program(spec, grid, want_coverage=True, max_issues=5, results=None, sk
             if tuple(outcome[:2]) != tuple(ref[:2]) or list(outcome[2]) != list(ref[2]):
                 if len(issues) < max_issues:
                     issues.append(Issue("unsound", f"path {idx} claims {fmt_outcome(outcome)}; EVM gives {fmt_outcome(ref)}", inputs, idx))
+        # the same paths under a valuation in which every initial array that must be empty holds a non-zero value: a path that is
+        # still satisfied reads such an array without its zero-initialisation axiom, and its outcome must still be the EVM's
+        if stats["inputs"] % 3 == 1:
+            env2 = hdriver.mk_env(inputs, spec.get("symbolic_storage"), alt=True)
+            for idx, pr, pe in evals:
+                if pr.kind == "stuck":
+                    continue
+                try:
+                    sat2, ok2, outcome2 = pe.run(env2)
+                except Unevaluable:
+                    continue
+                if not (sat2 and ok2):
+                    continue
+                stats["pairs_alt"] = stats.get("pairs_alt", 0) + 1
+                if pr.creates:
+                    ref2, _ = hdriver.run_reference(spec, inputs, creates=pr.creates)
+                else:
+                    if ref_plain is None:
+                        ref_plain, _ = hdriver.run_reference(spec, inputs)
+                    ref2 = ref_plain
+                if ref2[0] in ("Unsupported", "Limit", "CheatError", "Discard") or ref2[0] in skip_kinds:
+                    continue
+                if tuple(outcome2[:2]) != tuple(ref2[:2]) or list(outcome2[2]) != list(ref2[2]):
+                    if len(issues) < max_issues:
+                        issues.append(Issue("unsound", f"path {idx} claims {fmt_outcome(outcome2)} when the initial (empty) storage/balance arrays it reads are not forced to zero by its constraints; EVM gives {fmt_outcome(ref2)}", inputs, idx))
         if covered:
             stats["covered"] += 1
         elif want_coverage:
